@@ -207,35 +207,33 @@ mod proofs {
 #[cfg(all(test, not(kani)))]
 mod replay {
     use super::*;
-    #[test]
-    fn verif_replay() {
-        let name = std::env::var("VERIF_HARNESS").unwrap_or_default();
-        let mut r = RSrc::from_env();
-        match name.as_str() {
-            "kernel_scalar" => h_kernel_scalar(&mut r),
-            "kernel_simd" => h_kernel_simd(&mut r),
-            "kernel_simd_lane0" => h_kernel_simd_lane::<RSrc, 0>(&mut r),
-            "kernel_simd_lane1" => h_kernel_simd_lane::<RSrc, 1>(&mut r),
-            "kernel_simd_lane2" => h_kernel_simd_lane::<RSrc, 2>(&mut r),
-            "kernel_simd_lane3" => h_kernel_simd_lane::<RSrc, 3>(&mut r),
-            "kernel_simd_lane4" => h_kernel_simd_lane::<RSrc, 4>(&mut r),
-            "kernel_simd_lane5" => h_kernel_simd_lane::<RSrc, 5>(&mut r),
-            "kernel_simd_lane6" => h_kernel_simd_lane::<RSrc, 6>(&mut r),
-            "kernel_simd_lane7" => h_kernel_simd_lane::<RSrc, 7>(&mut r),
-            "table_j2" => h_table_j2(&mut r),
+    fn dispatch(name: &str, r: &mut RSrc) -> bool {
+        match name {
+            "kernel_scalar" => h_kernel_scalar(r),
+            "kernel_simd" => h_kernel_simd(r),
+            "kernel_simd_lane0" => h_kernel_simd_lane::<RSrc, 0>(r),
+            "kernel_simd_lane1" => h_kernel_simd_lane::<RSrc, 1>(r),
+            "kernel_simd_lane2" => h_kernel_simd_lane::<RSrc, 2>(r),
+            "kernel_simd_lane3" => h_kernel_simd_lane::<RSrc, 3>(r),
+            "kernel_simd_lane4" => h_kernel_simd_lane::<RSrc, 4>(r),
+            "kernel_simd_lane5" => h_kernel_simd_lane::<RSrc, 5>(r),
+            "kernel_simd_lane6" => h_kernel_simd_lane::<RSrc, 6>(r),
+            "kernel_simd_lane7" => h_kernel_simd_lane::<RSrc, 7>(r),
+            "table_j2" => h_table_j2(r),
             _ => {
                 // geom_<W>x<H> / real_<W>x<H>
                 let dims = name.rsplit('_').next().unwrap_or("");
                 let mut it = dims.split('x');
                 match (it.next().and_then(|v| v.parse().ok()), it.next().and_then(|v| v.parse().ok())) {
-                    (Some(w), Some(h)) => h_geom_dyn(&mut r, w, h),
-                    _ => {
-                        println!("REPLAY-UNKNOWN harness={}", name);
-                        return;
-                    }
+                    (Some(w), Some(h)) => h_geom_dyn(r, w, h),
+                    _ => return false,
                 }
             }
         }
-        r.report(&name);
+        true
+    }
+    #[test]
+    fn verif_replay() {
+        verif_replay_main(dispatch)
     }
 }
